@@ -116,10 +116,8 @@ class FileUnderTest:
             i, lo, hi = (list(args) + [None, None])[:3]
             if self.mask is not None:
                 pop = [k for k, m in enumerate(self.mask) if m]
-                if not -len(pop) <= i < len(pop):
-                    return IDX
-                if i < 0:
-                    return ('any', None)       # negative ordinals through the mask: Python indexing, not claimed here
+                if not 0 <= i < len(pop):
+                    return IDX                 # (negative ordinals are refused like everywhere else: D37 repair)
                 i = pop[i]
             if not 0 <= i < n_il * n_xl:
                 return IDX
